@@ -185,6 +185,35 @@ def w_enum(acc, L, first):
         acc.run("deriv", o_deriv, deriv, True)
 
 
+def w_structured(acc):
+    """Moderately long structures the short enumeration cannot reach: n occurrences of one key (n up to 14, entries,
+    strings, interleaved with other keys), verbatim repetitions of a block on one line or on several lines, entries whose
+    repeated field occurs for the k-th time / at index >= 5 / with identical values."""
+    def ent(key, fields, typ="article"):
+        return {"k": "entry", "type": typ, "hws": "", "ws1": "", "key": key, "ws2": "", "fields": [_fld(k, v) for k, v in fields], "comma": False, "ws_end": ""}
+
+    def string(key, value):
+        return {"k": "string", "kw": "string", "hws": "", "ws1": "", "key": key, "ws2": " ", "ws3": " ", "value": value, "ws4": ""}
+
+    for gap in (" ", "\n", "", "\n\n"):
+        g = {"k": "gap", "ws": gap}
+        for n in range(2, 15):
+            # verbatim copies and near-copies of one block
+            acc.run("deriv", o_deriv, [x for _ in range(n) for x in (ent("k", [("t", "{x}")]), g)], True)
+            acc.run("deriv", o_deriv, [x for i in range(n) for x in (ent("k", [("t", "{x%d}" % (i % 3))]), g)], True)
+            acc.run("deriv", o_deriv, [x for _ in range(n) for x in (string("s", '"v"'), g)], True)
+            acc.run("deriv", o_deriv, [x for i in range(n) for x in (string("s", '"v%d"' % i), g, ent("k%d" % (i % 2), [("t", "s")]), g)], True)
+            acc.run("deriv", o_deriv, [x for i in range(n) for x in (ent("k", [("t", "{x}")], "book" if i % 2 else "article"), g, ent("other%d" % i, []), g)], True)
+    for n in range(2, 12):
+        for same_value in (True, False):
+            # one entry repeating a field key n times; with other fields before, between and after
+            rep = [("url", "{u}" if same_value else "{u%d}" % i) for i in range(n)]
+            for fields in (rep, [("a", "1")] * 0 + [("title", "{T}")] + rep + [("year", "1999")], [x for r in rep for x in (r, ("f%d" % rep.index(r), "{v}"))],
+                           [("f%d" % i, "{v}") for i in range(n)] + [("f0", "{again}")], [("f%d" % i, "{v}") for i in range(n)] + [("f%d" % (n - 1), "{v}")]):
+                acc.run("deriv", o_deriv, [ent("k", fields), GAP, ent("k", [("t", "{second}")]), GAP, ent("k2", fields[:1]), GAP], True)
+    acc.classes["structured"] += 1
+
+
 def w_large(acc, n):
     acc.run("deriv", o_deriv, bibgen.large_document(n, dup_every=3), True)
     acc.run("deriv", o_deriv, bibgen.large_document(n, dup_every=0), True)
@@ -207,6 +236,7 @@ def run(chk):
         for first in (range(n) if k else [None]):
             tasks.append(("w_enum", (k, first)))
     tasks += [("w_large", (n,)) for n in (130, 300, 1100)]
+    tasks.append(("w_structured", ()))
     n_rand = 16000 if quick else 300000
     shards = 16 if quick else 64
     for s in range(shards):
